@@ -19,6 +19,15 @@ CAUGHT = {  # which invariant of which check reports it (quick tier), and whethe
  "C07-n1": ("C07 quota-bounds-the-work", True), "C07-n2": ("C07 cost-at-least-bytes-read", False),
  "C09-n1": ("C09 decode-value (IntFromNatThen8)", True), "C09-n2": ("C09 encode-minimal (I128)", True),
  "C20-n1": ("C20 recursion-within-configured-depth (family W)", False), "C20-n2": ("C20 recursion-within-configured-depth (size budget)", False),
+ # third round (worktrees /tmp/mut3/<A..D>, four changes each)
+ "C01-p1": ("C01 roundtrip-decodes / outcome-independent-of-history (same-named local types DupA/DupB)", False), "C01-p2": ("C01 roundtrip-value (i128)", True),
+ "C03-p3": ("C03 argument-value (a nat value / number literal handed over at type int)", False), "C03-p4": ("C03 argument-type (composite_query annotation)", True),
+ "C04-p1": ("C04 native-result-is-the-sent-value (SmallNat -> i128)", False), "C04-p2": ("C04 accepted-subtype-decodes-untyped / gate differs from spec relation", True),
+ "C05-p3": ("C05 answer-equals-spec-relation (CheckAll on service vs principal under a context)", False), "C05-p4": ("C05 answer-equals-spec-relation (query vs composite_query)", True),
+ "C06-p1": ("C06 decode-no-panic (primitive vector with length near 2^64/size, no quota)", False), "C06-p2": ("C06 decode-no-panic (nesting past 65535 on a 2 GiB stack)", False),
+ "C07-p3": ("C07 cost-at-least-bytes-read", True), "C07-p4": ("C07 cost-within-documented-model (Vec<Nat> read at Vec<Int>)", False),
+ "C09-p1": ("C09 decode-128-rejects-out-of-range", True), "C09-p2": ("C09 decode-value (MapU8Int)", True),
+ "C20-p3": ("C20 generator-no-panic (division by zero)", True), "C20-p4": ("C20 recursion-within-configured-depth (family VT)", False),
 }
 ROUNDS = [("/tmp/mut", "m", (1,2,3)), ("/tmp/mut2", "n", (1,2))]
 for base, pre, ks in ROUNDS:
@@ -46,6 +55,35 @@ for base, pre, ks in ROUNDS:
             "breaks_property": p,
             "confirmed_in_scratch_worktree": conf,
             "what_was_run": f"tools/confirm_mutation.sh {src} (patch applies; cargo test --workspace with patch: 219 pass; demo fails with patch, passes without); tools/try_mutation.sh seeded/{p}-{pre}{k}/patch.diff {p} quick",
+            "caught_by": caught,
+            "caught_by_first_version_of_the_checks": first,
+        })
+        json.dump(meta, open(os.path.join(dst, "meta.json"), "w"), indent=1)
+        print("kept", dst)
+
+# third round: property is in meta.json
+for g in "ABCD":
+    for k in (1,2,3,4):
+        src = f"/tmp/mut3/{g}/out/p{k}"
+        if not os.path.isdir(src): continue
+        meta = json.load(open(os.path.join(src, "meta.json")))
+        p = meta["property"]
+        cf = os.path.join(src, "confirm.json")
+        if not os.path.exists(cf):
+            print("not confirmed yet:", src); continue
+        conf = json.load(open(cf))
+        if not all(conf.values()):
+            print("NOT kept (confirmation failed):", src, conf); continue
+        dst = f"/verif/seeded/{p}-p{k}"
+        os.makedirs(dst, exist_ok=True)
+        shutil.copy(os.path.join(src, "patch.diff"), dst)
+        for f in glob.glob(os.path.join(src, "*.rs")):
+            shutil.copy(f, dst)
+        caught, first = CAUGHT[f"{p}-p{k}"]
+        meta.update({
+            "breaks_property": p,
+            "confirmed_in_scratch_worktree": conf,
+            "what_was_run": f"tools/confirm_mutation.sh {src} (patch applies; cargo test --workspace with patch: 219 pass; demo fails with patch, passes without); tools/try_mutation.sh seeded/{p}-p{k}/patch.diff {p} quick",
             "caught_by": caught,
             "caught_by_first_version_of_the_checks": first,
         })
